@@ -199,7 +199,92 @@ def _shape(name, comps, insts):
         {"component": "M", "key": f"shape:{name}", "instances": insts}]}}
 
 
+def _family_cases(tier):
+    """allOf families: a parent, a child that re-states inherited properties more strictly, and a sibling that only inherits —
+    every class of the family is a target (a child must not change what its parent or sibling accept), all declaration orders."""
+    ref = lambda n: {"$ref": f"#/components/schemas/{n}"}  # noqa: E731
+    parent = {"type": "object", "required": ["id"], "properties": {"id": {"type": "integer"}, "when": {"type": "string", "format": "date"},
+                                                                    "label": {"type": "string"}}}
+    sib = {"allOf": [ref("P"), {"type": "object", "properties": {"s": {"type": "string"}}}]}
+    modes = {
+        "plain": ({"allOf": [ref("P"), {"type": "object", "properties": {"tag": {"type": "string", "enum": ["a", "b"]}}}]}, []),
+        "requires-top": ({"allOf": [ref("P")], "required": ["label"]}, ["label"]),
+        "requires-inline": ({"allOf": [ref("P"), {"required": ["label", "when"]}]}, ["label", "when"]),
+        "redeclares-required": ({"allOf": [ref("P"), {"type": "object", "required": ["when"], "properties": {"when": {"type": "string", "format": "date"}}}]}, ["when"]),
+        "redeclares-default": ({"allOf": [ref("P"), {"type": "object", "properties": {"label": {"type": "string", "default": "x"}}}]}, ["label"]),
+        "narrows": ({"allOf": [ref("P"), {"type": "object", "properties": {"label": {"type": "string", "enum": ["a", "b"]}}}]}, []),
+        "chain": ({"allOf": [ref("S"), {"type": "object", "required": ["s", "label"], "properties": {"s": {"type": "string"}}}]}, ["s", "label"]),
+    }
+    pprops = [("id", "int"), ("when", "date"), ("label", "str")]
+    for mode, (child, must) in modes.items():
+        for order in itertools.permutations(("P", "M", "S")):
+            comps = {"P": parent, "M": child, "S": sib}
+            comps = copy.deepcopy({k: comps[k] for k in order})
+            label_vals = "enum" if mode == "narrows" else "str"
+            m_insts = [i for i in _family_insts(pprops + ([("s", "str")] if mode == "chain" else []), ["id"] + must)]
+            if label_vals == "enum":
+                for i in m_insts:
+                    if "label" in i["value"]:
+                        i["value"]["label"] = "a"
+            targets = [{"component": "P", "key": f"family:{mode}/parent", "instances": _family_insts(pprops, ["id"])},
+                       {"component": "S", "key": f"family:{mode}/sibling", "instances": _family_insts(pprops + [("s", "str")], ["id"])},
+                       {"component": "M", "key": f"family:{mode}/child", "instances": m_insts}]
+            yield {"labels": [f"family={mode}", "order=" + "".join(order)],
+                   "payload": {"doc": gen.base_doc(comps), "options": {}, "targets": targets}}
+
+
+def _family_insts(props, required):
+    out = []
+    for combo in itertools.product(*[([True] if n in required else [False, True]) for n, _k in props]):
+        v = {n: copy.deepcopy(K.samples(k)[0][1]) for (n, k), on in zip(props, combo) if on}
+        out.append({"cls": "+".join(n for (n, _k), on in zip(props, combo) if on) or "none", "value": v})
+    return out
+
+
+def _nested_union_cases(tier):
+    """Unions whose members are themselves unions (inline or by reference): flattening must keep the members' order, which is
+    observable when a later member would also accept (lossily) what an earlier one decodes exactly."""
+    ref = lambda n: {"$ref": f"#/components/schemas/{n}"}  # noqa: E731
+    cat = {"type": "object", "required": ["meow"], "properties": {"meow": {"type": "integer"}}}
+    dog = {"type": "object", "required": ["bark"], "properties": {"bark": {"type": "string"}}}
+    # Loose accepts any object (no required keys) and keeps unknown keys; Closed has additionalProperties: false and no
+    # required key, so the generated decoder accepts any object for it: it must stay AFTER the members listed before it.
+    loose = {"type": "object", "properties": {"note": {"type": "string"}}}
+    closed = {"type": "object", "additionalProperties": False, "properties": {"note": {"type": "string"}}}
+    base = {"Cat": cat, "Dog": dog, "Loose": loose, "Closed": closed, "Pet": {"oneOf": [ref("Cat"), ref("Dog")]},
+            "PetA": {"anyOf": [ref("Cat"), ref("Dog")]}}
+    values = [("cat", {"meow": 1}), ("dog", {"bark": "w"}), ("note", {"note": "n"}), ("int", 7), ("str", "s")]
+    forms = {
+        "ref-union-then-closed": ([ref("Pet"), ref("Closed")], ["cat", "dog", "note"]),
+        "ref-anyof-then-closed": ([ref("PetA"), ref("Closed")], ["cat", "dog", "note"]),
+        "inline-union-then-closed": ([{"oneOf": [ref("Cat"), ref("Dog")]}, ref("Closed")], ["cat", "dog", "note"]),
+        "inline-anyof-then-closed": ([{"anyOf": [ref("Cat"), ref("Dog")]}, ref("Closed")], ["cat", "dog", "note"]),
+        "ref-union-then-loose": ([ref("Pet"), ref("Loose")], ["cat", "dog", "note"]),
+        "int-then-ref-union-then-closed": ([{"type": "integer"}, ref("Pet"), ref("Closed")], ["int", "cat", "dog", "note"]),
+        "ref-union-then-str-then-closed": ([ref("Pet"), {"type": "string"}, ref("Closed")], ["cat", "dog", "str", "note"]),
+        "double-nesting-then-closed": ([{"oneOf": [{"oneOf": [ref("Cat")]}, ref("Dog")]}, ref("Closed")], ["cat", "dog", "note"]),
+        "two-ref-unions": ([ref("Pet"), {"oneOf": [{"type": "integer"}, ref("Closed")]}], ["cat", "dog", "int", "note"]),
+    }
+    vals = dict(values)
+    for name, (members, ok) in forms.items():
+        for comb in ("oneOf", "anyOf"):
+            for where in ("prop", "items"):
+                sch = {comb: copy.deepcopy(members)}
+                prop = sch if where == "prop" else {"type": "array", "items": sch}
+                comps = copy.deepcopy(base)
+                comps["M"] = {"type": "object", "properties": {"p": prop}}
+                insts = [{"cls": "absent", "value": {}}]
+                for v in ok:
+                    insts.append({"cls": v, "value": {"p": copy.deepcopy(vals[v]) if where == "prop" else [copy.deepcopy(vals[v])]}})
+                if where == "items":
+                    insts.append({"cls": "all", "value": {"p": [copy.deepcopy(vals[v]) for v in ok]}})
+                yield {"labels": [f"nested-union={name}", comb, where], "payload": {"doc": gen.base_doc(comps), "options": {}, "targets": [
+                    {"component": "M", "key": f"nested-union:{name}/{comb}/{where}", "instances": insts}]}}
+
+
 def cases(tier):
+    yield from _family_cases(tier)
+    yield from _nested_union_cases(tier)
     yield from _single_cases(tier)
     yield from _addl_cases(tier)
     yield from _pair_cases(tier)
